@@ -66,19 +66,14 @@ func (calc *RewardCalculator) Burnedout() bool {
 }
 
 func (calc *RewardCalculator) Calculate() (amt *balance.Amount, err error) {
-	// set cached amount if available
+	// the cached amount is valid for the cycle it was calculated in, and for that cycle only:
+	// a calculation that failed, or a forecast of "no blocks left", must not outlive its cycle,
+	// otherwise a node that kept running hands out another amount than a node that was restarted
 	amt = balance.NewAmount(0)
-	cycleNo, firstInCycle, _ := calc.getCycleNo()
-	if calc.cached.available() {
+	cycleNo, _, _ := calc.getCycleNo()
+	if calc.cached.available() && calc.cached.cycleNo == cycleNo {
 		*amt = *calc.cached.amount
-		// return if all reward years already passed
-		if calc.cached.burnedout {
-			return
-		}
-		// recalculation is not needed if it's in the same cycle
-		if !firstInCycle {
-			return
-		}
+		return
 	}
 
 	// calculate cached result again only when starting a new cycle or starting to catch up
